@@ -16,11 +16,11 @@ from .checks import c17 as C
 
 CLASS_TEXT = {
     "rejectwrong": "AsyncModuleExecutionFulfilled step 12.c.ii.1 rejects the module that just fulfilled instead of the throwing parent m "
-                   "(source.rs:2152) -> debug assertion panic",
+                   "(source.rs, async_module_execution_fulfilled: `async_module_execution_rejected(module, e, context)` must pass `&m`) -> debug assertion panic",
     "rootcount": "InnerModuleEvaluation step 16: every member of a strongly connected component gets the cycle root's "
-                 "[[PendingAsyncDependencies]] (source.rs:1419) -> members never run / run early / count assertion panics",
+                 "[[PendingAsyncDependencies]] (source.rs, inner_evaluate: the `pending_async_dependencies` local of the root's call is stored into every popped member) -> members never run / run early / count assertion panics",
     "nostore": "Evaluate() on a module that is already evaluating-async/evaluated reads the capability of the module instead of its cycle "
-               "root and never stores the new capability (source.rs:1051-1098) -> promise of an overlapping evaluate() never settles",
+               "root and never stores the new capability (source.rs, SourceTextModule::evaluate) -> promise of an overlapping evaluate() never settles",
 }
 
 
@@ -31,6 +31,11 @@ def genlists(tier):
     chk.findings.known = {}          # collect everything, also what is already listed
     collect = []
     C.explore(chk, collect=collect)
+    write_lists(collect)
+
+
+def write_lists(collect):
+    """merge the (class, bucket) pairs of `collect` into findings/C17-<class>.list and findings/C17.known"""
     by = {}
     unexplained = []
     for c in collect:
@@ -85,7 +90,7 @@ def _emu_work(jobs):
     bad = []
     for j, r in zip(jobs, res):
         for beh, o in zip(j["behs"], r.get("r", [])):
-            outs = [o] if isinstance(o, str) else [x[2] for x in o["outs"]]
+            outs = [M.canon(o)] if isinstance(o, str) else [M.canon(x[2]) for x in o["outs"]]
             try:
                 emu = M.predict(j["n"], j["imp"], j["kinds"], beh, j["hist"], j["pre"], bugs=("rejectwrong", "rootcount", "nostore"))
             except M.ModelAssert as e:
